@@ -236,7 +236,7 @@ def replay(ctx: Ctx, case):
 
 def run(ctx: Ctx):
     q = ctx.tier == "quick"
-    parts = [given_part(ctx, "balanced", cases(), check_balanced, per_shard(ctx, 5600 if q else 120000)),
+    parts = [given_part(ctx, "balanced", cases(), check_balanced, per_shard(ctx, 4400 if q else 120000)),
              given_part(ctx, "dump-balanced", _dump_balanced_cases(), check_dump, per_shard(ctx, 400 if q else 8000), batch=25)]
     if not q:
         parts.append(given_part(ctx, "balanced-wide", cases(5, 8), check_balanced, per_shard(ctx, 30000)))
